@@ -1,6 +1,7 @@
 package main
 
 import (
+	"go/token"
 	"strconv"
 	"go/types"
 	"fmt"
@@ -257,8 +258,41 @@ func runC17(c *Ctx) {
 			{Name: "GetBlockHeaders: skip+1 ancestors are materialised only if origin+skip+1 > origin (no uint64 wrap-around)",
 				Re: `^(\(\((.*\.Number\.Uint64\(\)) \+ new\(getBlockHeadersData\)\.Skip\) \+ 1\) > .*\.Number\.Uint64\(\)|new\(getBlockHeadersData\)\.Skip < \(18446744073709551615 - .*\.Number\.Uint64\(\)\))$`},
 		})
+		// the frame codec is switched to snappy only after our own (uncompressed) hello has been written: the store to
+		// rw.snappy is dominated by the receive that waits for the background hello writer, or the hello may go out
+		// compressed and the remote side drops the connection ("what one side writes is what the other reads")
+		phs := c.Fn("p2p:(*rlpx).doProtoHandshake")
+		var recvs []ssa.Instruction
+		var stores []*ssa.Store
+		for _, b := range phs.Blocks {
+			for _, ins := range b.Instrs {
+				switch x := ins.(type) {
+				case *ssa.UnOp:
+					if x.Op == token.ARROW {
+						recvs = append(recvs, x)
+					}
+				case *ssa.Store:
+					if fa, ok := x.Addr.(*ssa.FieldAddr); ok && fieldName(fa) == "snappy" {
+						stores = append(stores, x)
+					}
+				}
+			}
+		}
+		okSnappy := len(stores) >= 1
+		for _, st := range stores {
+			dom := false
+			for _, r := range recvs {
+				if instrDominates(r, st) {
+					dom = true
+				}
+			}
+			if !dom {
+				okSnappy = false
+			}
+		}
+		c.Ob("C17-R3", "doProtoHandshake enables snappy only after the hello writer has finished", c.FnPos(phs), okSnappy, fmt.Sprintf("%d stores to rw.snappy, %d channel receives", len(stores), len(recvs)))
 	})
-	c.Min("C17-R3", 12)
+	c.Min("C17-R3", 13)
 
 	c.Rule("C17-R4", "decode errors are never swallowed: no accepting path of a message handler carries a failed decode", func() {
 		for _, spec := range []string{"aqua:(*ProtocolManager).handleMsg", "p2p:(*rlpxFrameRW).ReadMsg", "p2p/discover:decodePacket"} {
